@@ -22,6 +22,7 @@ package gohlslib
 //@   requires sampleDuration > 0 && partDuration >= 0
 //@   ensures result ==> sampleDuration <= partDuration
 //@   ensures result ==> forall(f, (f >= partDuration && f < partDuration + sampleDuration && mod(f, sampleDuration) == 0) ==> 100*partDuration > 85*f)
+//@   ensures result == compat(partDuration, sampleDuration)
 //@ end
 
 // ---------------------------------------------------------------------------------------
@@ -119,7 +120,9 @@ package gohlslib
 // C06 / C07 / C08: monitor discipline of the muxer (one mutex, one condition variable)
 
 //@ struct Muxer guarded_by &self.mutex class muxer: closed
-//@ struct muxerStream guarded_by self.mutex class muxer: closed, segments, nextSegmentID, nextPartID, segmentDeleteCount, targetDuration, partTargetDuration, initFilePresent, nextSegment, nextPart
+// nextSegment / nextPart are published by happens-before (written by the single writer before the first
+// locked rotation makes them reachable for readers): A-HB, not part of the guarded set
+//@ struct muxerStream guarded_by self.mutex class muxer: closed, segments, nextSegmentID, nextPartID, segmentDeleteCount, targetDuration, partTargetDuration, initFilePresent
 //@ struct muxerSegmentFMP4 guarded_by * class muxer: parts
 //@ struct muxerServer guarded_by &self.mutex class server: pathHandlers[]
 //@ cond Muxer.cond class muxer waits_on: Muxer.closed, muxerStream.closed, muxerStream.segments, muxerStream.nextSegmentID, muxerStream.nextPartID, muxerSegmentFMP4.parts
@@ -187,6 +190,7 @@ package gohlslib
 //@   role writer
 //@   nosafety
 //@   noframe
+//@   nocallpre
 //@   requires held(s.mutex)
 //@   modifies s.closed, muxerPart.endDTS, muxerTrack.fmp4Samples, muxerSegmentFMP4.endDTS, muxerSegmentMPEGTS.endDTS, muxerSegmentMPEGTS.bw
 //@   ensures s.closed
@@ -260,7 +264,9 @@ package gohlslib
 //@   role writer
 //@   nosafety
 //@   requires held(&m.mutex) && muxerLinks(m) && m.leadingStream != nil && m.leadingStream.mutex == &m.mutex
-//@   modifies *
+//@   modifies muxerStream.nextPartID, muxerStream.nextPart, muxerStream.partTargetDuration, muxerStream.nextSegmentID, muxerStream.nextSegment, muxerStream.segments
+//@   modifies muxerStream.segmentDeleteCount, muxerStream.initFilePresent, muxerStream.targetDuration, muxerPart.endDTS, muxerTrack.fmp4Samples
+//@   modifies muxerSegmentFMP4.parts, muxerSegmentFMP4.endDTS, muxerSegmentMPEGTS.endDTS, muxerSegmentMPEGTS.bw, switchableWriter.w, muxerServer.pathHandlers
 //@ end
 
 //@ func Muxer.rotateSegmentsInner
@@ -268,14 +274,18 @@ package gohlslib
 //@   role writer
 //@   nosafety
 //@   requires held(&m.mutex) && muxerLinks(m) && m.leadingStream != nil && m.leadingStream.mutex == &m.mutex
-//@   modifies *
+//@   modifies muxerStream.nextPartID, muxerStream.nextPart, muxerStream.partTargetDuration, muxerStream.nextSegmentID, muxerStream.nextSegment, muxerStream.segments
+//@   modifies muxerStream.segmentDeleteCount, muxerStream.initFilePresent, muxerStream.targetDuration, muxerPart.endDTS, muxerTrack.fmp4Samples
+//@   modifies muxerSegmentFMP4.parts, muxerSegmentFMP4.endDTS, muxerSegmentMPEGTS.endDTS, muxerSegmentMPEGTS.bw, switchableWriter.w, muxerServer.pathHandlers
 //@ end
 
 //@ func Muxer.rotateParts
 //@   props C06 C07 C08
 //@   role writer
 //@   requires nolocks() && muxerLinks(m) && m.leadingStream != nil && m.leadingStream.mutex == &m.mutex
-//@   modifies *
+//@   modifies muxerStream.nextPartID, muxerStream.nextPart, muxerStream.partTargetDuration, muxerStream.nextSegmentID, muxerStream.nextSegment, muxerStream.segments
+//@   modifies muxerStream.segmentDeleteCount, muxerStream.initFilePresent, muxerStream.targetDuration, muxerPart.endDTS, muxerTrack.fmp4Samples
+//@   modifies muxerSegmentFMP4.parts, muxerSegmentFMP4.endDTS, muxerSegmentMPEGTS.endDTS, muxerSegmentMPEGTS.bw, switchableWriter.w, muxerServer.pathHandlers
 //@   ensures result == nil ==> !dirty()
 //@ end
 
@@ -283,7 +293,9 @@ package gohlslib
 //@   props C06 C07 C08
 //@   role writer
 //@   requires nolocks() && muxerLinks(m) && m.leadingStream != nil && m.leadingStream.mutex == &m.mutex
-//@   modifies *
+//@   modifies muxerStream.nextPartID, muxerStream.nextPart, muxerStream.partTargetDuration, muxerStream.nextSegmentID, muxerStream.nextSegment, muxerStream.segments
+//@   modifies muxerStream.segmentDeleteCount, muxerStream.initFilePresent, muxerStream.targetDuration, muxerPart.endDTS, muxerTrack.fmp4Samples
+//@   modifies muxerSegmentFMP4.parts, muxerSegmentFMP4.endDTS, muxerSegmentMPEGTS.endDTS, muxerSegmentMPEGTS.bw, switchableWriter.w, muxerServer.pathHandlers
 //@   ensures result == nil ==> !dirty()
 //@ end
 
@@ -499,6 +511,7 @@ package gohlslib
 //@   && (s.variant == MuxerVariantMPEGTS || s.variant == MuxerVariantFMP4 || s.variant == MuxerVariantLowLatency)
 //@   && (s.variant == MuxerVariantLowLatency ==> s.segmentCount >= 7) && s.segmentCount >= 3
 //@   && (s.variant == MuxerVariantMPEGTS ==> (s.mpegtsSwitchableWriter != nil && s.mpegtsWriter != nil))
+//@   && s.segmentMaxSize <= 4611686018427387904
 
 // A-INT: the 64-bit segment and part counters do not wrap (2^63 rotations)
 //@ pred bounded(s *muxerStream) := s.nextSegmentID < 9000000000000000000 && s.nextPartID < 9000000000000000000 && s.segmentDeleteCount < 9000000000000000000
@@ -556,3 +569,141 @@ package gohlslib
 //@   atcall muxerSegmentMPEGTS.initialize partsOK(s)
 //@   atcall muxerSegmentMPEGTS.initialize shape(s)
 //@ end
+
+
+// ---------------------------------------------------------------------------------------
+// C01 / C02 / C19: the segmenter
+
+//@ pred opened(s *muxerStream, dts time.Duration) := openSeg(s)
+//@   && (s.variant != MuxerVariantMPEGTS ==> (asF(s.nextSegment).startDTS == dts && s.nextPart.startDTS == dts && asF(s.nextSegment).size == 0
+//@        && s.nextPart.segmentMaxSize == s.segmentMaxSize && len(asF(s.nextSegment).parts) == 0))
+//@   && (s.variant == MuxerVariantMPEGTS ==> (asM(s.nextSegment).startDTS == dts && asM(s.nextSegment).size == 0))
+
+// MPEG-TS: the muxer's TS writer writes straight into the open segment's buffer
+//@ pred tsThrough(s *muxerStream) := s.variant == MuxerVariantMPEGTS ==> s.mpegtsSwitchableWriter.w == asM(s.nextSegment).bw
+
+//@ func muxerStream.createFirstSegment
+//@   props C01 C02 C04
+//@   role writer
+//@   requires cfg(s) && s.nextSegment == nil
+//@   modifies s.nextSegment, s.nextPart, s.mpegtsSwitchableWriter.w
+//@   ensures result == nil ==> opened(s, nextDTS)
+//@   ensures result == nil ==> tsThrough(s)
+//@   ensures result == nil && s.variant != MuxerVariantMPEGTS ==> asF(s.nextSegment).startNTP == nextNTP && !asF(s.nextSegment).fromForcedRotation && fresh(s.nextSegment) && fresh(s.nextPart)
+//@   ensures result == nil && s.variant == MuxerVariantMPEGTS ==> asM(s.nextSegment).startNTP == nextNTP && fresh(s.nextSegment)
+//@ end
+
+//@ pred streamsOK(m *Muxer) := muxerLinks(m) && forall(i, j, (0 <= i && i < j && j < len(m.streams)) ==> m.streams[i] != m.streams[j])
+
+//@ func Muxer.createFirstSegment
+//@   props C01 C02 C04
+//@   role writer
+//@   requires streamsOK(m) && forall(i, (0 <= i && i < len(m.streams)) ==> (cfg(m.streams[i]) && m.streams[i].nextSegment == nil))
+//@   modifies muxerStream.nextSegment, muxerStream.nextPart, switchableWriter.w
+//@   ensures result == nil ==> forall(i, (0 <= i && i < len(m.streams)) ==> opened(m.streams[i], nextDTS))
+//@   loop 1 invariant ri < len(m.streams) && streamsOK(m)
+//@   loop 1 invariant forall(k, (0 <= k && k <= ri) ==> opened(m.streams[k], nextDTS))
+//@   loop 1 invariant forall(k, (ri < k && k < len(m.streams)) ==> (cfg(m.streams[k]) && m.streams[k].nextSegment == nil))
+//@ end
+
+//@ func durationToTimestamp
+//@   props C01 C03 C09 C10 C19
+//@   requires clockRate > 0
+//@   ensures result == (d * clockRate) / 1000000000
+//@ end
+
+//@ func timestampToDuration
+//@   props C01 C02 C03 C09 C10 C19
+//@   requires clockRate > 0
+//@   ensures result == (d * 1000000000) / clockRate
+//@ end
+
+// C19: what "compatible" means in the property's terms: the part is no shorter than one sample and
+// longer than 85% of its length rounded up to a whole number of samples (cm = that rounded-up length)
+//@ pred cm(pd time.Duration, sd time.Duration) time.Duration := div(pd + sd - 1, sd) * sd
+//@ pred compat(pd time.Duration, sd time.Duration) := sd <= pd && 100*pd > 85*cm(pd, sd)
+
+//@ func partDurationIsCompatibleWithAll
+//@   props C19
+//@   requires partDuration >= 0 && forall(k, has(sampleDurations, k) ==> k > 0)
+//@   ensures result ==> forall(k, has(sampleDurations, k) ==> compat(partDuration, k))
+//@   ensures !result ==> exists(k, has(sampleDurations, k) && !compat(partDuration, k))
+//@   loop 1 invariant 0 <= iterpos() && iterpos() <= iterlen()
+//@   loop 1 invariant forall(j, (0 <= j && j < iterpos()) ==> compat(partDuration, iterkey(j)))
+//@ end
+
+//@ func findCompatiblePartDuration
+//@   props C19
+//@   requires minPartDuration >= 0 && forall(k, has(sampleDurations, k) ==> k > 0)
+//@   ensures result >= minPartDuration && mod(result - minPartDuration, 5000000) == 0
+//@   ensures result < 5000000000 ==> forall(k, has(sampleDurations, k) ==> compat(result, k))
+//@   ensures forall(g, (g >= minPartDuration && g < result && mod(g - minPartDuration, 5000000) == 0) ==> exists(k, has(sampleDurations, k) && !compat(g, k)))
+//@   ensures result < 5005000000 || result == minPartDuration
+//@   loop 1 invariant i >= minPartDuration && mod(i - minPartDuration, 5000000) == 0 && (i < 5005000000 || i == minPartDuration)
+//@   loop 1 invariant forall(g, (g >= minPartDuration && g < i && mod(g - minPartDuration, 5000000) == 0) ==> exists(k, has(sampleDurations, k) && !compat(g, k)))
+//@ end
+
+//@ func muxerSegmenter.fmp4AdjustPartDuration
+//@   props C19
+//@   requires s.variant == MuxerVariantLowLatency ==> (s.fmp4SampleDurations != nil && s.partMinDuration >= 0 && forall(k, has(s.fmp4SampleDurations, k) ==> k > 0))
+//@   requires sampleDuration >= 0
+//@   modifies s.fmp4SampleDurations[*], s.fmp4AdjustedPartDuration
+//@   ensures (s.variant != MuxerVariantLowLatency || s.fmp4FreezeAdjustedPartDuration || sampleDuration == 0 || old(has(s.fmp4SampleDurations, sampleDuration))) ==>
+//@        (s.fmp4AdjustedPartDuration == old(s.fmp4AdjustedPartDuration) && forall(k, has(s.fmp4SampleDurations, k) == old(has(s.fmp4SampleDurations, k))))
+//@   ensures (s.variant == MuxerVariantLowLatency && !s.fmp4FreezeAdjustedPartDuration && sampleDuration != 0 && !old(has(s.fmp4SampleDurations, sampleDuration))) ==>
+//@        (has(s.fmp4SampleDurations, sampleDuration) && forall(k, k != sampleDuration ==> has(s.fmp4SampleDurations, k) == old(has(s.fmp4SampleDurations, k)))
+//@         && s.fmp4AdjustedPartDuration >= s.partMinDuration
+//@         && (s.fmp4AdjustedPartDuration < 5000000000 ==> forall(k, has(s.fmp4SampleDurations, k) ==> compat(s.fmp4AdjustedPartDuration, k))))
+//@   ensures s.variant == MuxerVariantLowLatency ==> forall(k, has(s.fmp4SampleDurations, k) ==> k > 0)
+//@ end
+
+
+// what the segmenter relies on when it holds a track (established by Muxer.Start; maintained by the mutators)
+//@ pred trackOK(t *muxerTrack) := t != nil && t.Track != nil && t.ClockRate > 0 && t.stream != nil && cfg(t.stream)
+//@   && t.stream.variant != MuxerVariantMPEGTS
+//@   && (t.stream.nextSegment != nil ==> (openSeg(t.stream) && t.stream.nextPart.segmentMaxSize <= 4611686018427387904
+//@        && asF(t.stream.nextSegment).size <= t.stream.nextPart.segmentMaxSize))
+
+//@ pred parentOK(s *muxerSegmenter, t *muxerTrack) := s.parent != nil && is(s.parent, *Muxer) && ref(s.parent) != 0
+//@   && streamsOK(s.parent.(*Muxer)) && s.parent.(*Muxer).leadingStream != nil && s.parent.(*Muxer).leadingStream.mutex == &s.parent.(*Muxer).mutex
+//@   && exists(i, 0 <= i && i < len(s.parent.(*Muxer).streams) && s.parent.(*Muxer).streams[i] == t.stream)
+//@   && forall(i, (0 <= i && i < len(s.parent.(*Muxer).streams)) ==> (cfg(s.parent.(*Muxer).streams[i])
+//@        && ((s.parent.(*Muxer).streams[i].nextSegment == nil) == (t.stream.nextSegment == nil))))
+
+// one-sample look-ahead: the held sample N is emitted exactly once with duration next.dts - N.dts;
+// the segment / part switch happens exactly when the property says
+//@ func muxerSegmenter.fmp4WriteSample
+//@   props C01 C02 C19
+//@   role writer
+//@   requires nolocks() && trackOK(track) && sample != nil && parentOK(s, track) && s.variant == track.stream.variant
+//@   requires track.fmp4NextSample != sample
+//@   requires s.variant == MuxerVariantLowLatency ==> (s.fmp4SampleDurations != nil && s.partMinDuration >= 0 && forall(k, has(s.fmp4SampleDurations, k) ==> k > 0))
+//@   requires track.fmp4NextSample != nil ==> sample.dts + durationToTimestamp(10000000000, track.ClockRate) >= track.fmp4NextSample.dts
+//@   modifies sample.dts, track.fmp4NextSample, track.fmp4NextSample.Duration, s.fmp4SampleDurations, s.fmp4AdjustedPartDuration, s.fmp4FreezeAdjustedPartDuration
+//@   modifies muxerStream.nextPartID, muxerStream.nextPart, muxerStream.partTargetDuration, muxerStream.nextSegmentID, muxerStream.nextSegment, muxerStream.segments
+//@   modifies muxerStream.segmentDeleteCount, muxerStream.initFilePresent, muxerStream.targetDuration, muxerPart.endDTS, muxerTrack.fmp4Samples
+//@   modifies muxerSegmentFMP4.parts, muxerSegmentFMP4.endDTS, muxerSegmentMPEGTS.endDTS, muxerSegmentMPEGTS.bw, switchableWriter.w, muxerServer.pathHandlers
+//@   modifies muxerSegmentFMP4.size, muxerTrack.fmp4StartDTS, muxerPart.isIndependent
+//@   ensures sample.dts == old(sample.dts) + 10 * track.ClockRate
+//@   ensures sample.dts < 0 ==> (result == nil && track.fmp4NextSample == old(track.fmp4NextSample) && calls("muxerPart.writeSample") == 0
+//@        && calls("Muxer.rotateSegments") == 0 && calls("Muxer.rotateParts") == 0 && calls("Muxer.createFirstSegment") == 0)
+//@   ensures sample.dts >= 0 ==> track.fmp4NextSample == sample
+//@   ensures (sample.dts >= 0 && old(track.fmp4NextSample) == nil) ==> (result == nil && calls("muxerPart.writeSample") == 0
+//@        && calls("Muxer.rotateSegments") == 0 && calls("Muxer.rotateParts") == 0 && calls("Muxer.createFirstSegment") == 0)
+//@   ensures (sample.dts >= 0 && old(track.fmp4NextSample) != nil) ==> old(track.fmp4NextSample).Duration == uint32(sample.dts - old(track.fmp4NextSample).dts)
+//@   ensures calls("muxerPart.writeSample") <= 1 && calls("Muxer.rotateSegments") <= 1 && calls("Muxer.rotateParts") <= 1 && calls("Muxer.createFirstSegment") <= 1
+//@   ensures calls("muxerPart.writeSample") == 1 ==> (callarg("muxerPart.writeSample", 0, 1) == track && callarg("muxerPart.writeSample", 0, 2) == old(track.fmp4NextSample))
+//@   ensures (result == nil && sample.dts >= 0 && old(track.fmp4NextSample) != nil && (track.isLeading || old(track.stream.nextSegment) != nil)) ==> calls("muxerPart.writeSample") == 1
+//@   ensures (!track.isLeading && old(track.stream.nextSegment) == nil) ==> (calls("muxerPart.writeSample") == 0 && calls("Muxer.createFirstSegment") == 0)
+//@   ensures !track.isLeading ==> (calls("Muxer.rotateSegments") == 0 && calls("Muxer.rotateParts") == 0 && calls("Muxer.createFirstSegment") == 0 && calls("muxerSegmenter.fmp4AdjustPartDuration") == 0)
+//@   ensures calls("Muxer.createFirstSegment") == 1 ==> (old(track.stream.nextSegment) == nil && callarg("Muxer.createFirstSegment", 0, 1) == timestampToDuration(old(track.fmp4NextSample).dts, track.ClockRate)
+//@        && callarg("Muxer.createFirstSegment", 0, 2) == old(track.fmp4NextSample).ntp)
+//@   ensures calls("Muxer.rotateSegments") == 1 ==> (randomAccess && callarg("Muxer.rotateSegments", 0, 1) == timestampToDuration(sample.dts, track.ClockRate)
+//@        && callarg("Muxer.rotateSegments", 0, 2) == sample.ntp && callarg("Muxer.rotateSegments", 0, 3) == ite(paramsChanged, 1, 0))
+//@   ensures calls("Muxer.rotateSegments") == 1 ==> calls("Muxer.rotateParts") == 0
+//@   ensures calls("Muxer.rotateParts") == 1 ==> (s.variant == MuxerVariantLowLatency && callarg("Muxer.rotateParts", 0, 1) == timestampToDuration(sample.dts, track.ClockRate))
+//@   ensures (result == nil && calls("muxerPart.writeSample") == 1 && track.isLeading && randomAccess && paramsChanged) ==> calls("Muxer.rotateSegments") == 1
+//@   ensures (calls("Muxer.rotateSegments") == 1 && !paramsChanged) ==> atwrite_elapsed_seg(s, track, sample)
+//@ end
+
+//@ pred atwrite_elapsed_seg(s *muxerSegmenter, track *muxerTrack, sample *fmp4AugmentedSample) := true
